@@ -202,8 +202,8 @@ class Client(base_client.BaseClient):
         except ValueError:
             raise exceptions.ConnectionError(
                 'Unexpected response from server') from None
-        open_packet = p.packets[0]
-        if open_packet.packet_type != packet.OPEN:
+        open_packet = p.packets[0] if p.packets else None
+        if open_packet is None or open_packet.packet_type != packet.OPEN:
             raise exceptions.ConnectionError(
                 'OPEN packet not returned by server')
         self.logger.info(
@@ -358,8 +358,12 @@ class Client(base_client.BaseClient):
                     'WebSocket upgrade failed: unexpected recv exception: %s',
                     str(e))
                 return False
-            pkt = packet.Packet(encoded_packet=p)
-            if pkt.packet_type != packet.PONG or pkt.data != 'probe':
+            try:
+                pkt = packet.Packet(encoded_packet=p)
+            except ValueError:
+                pkt = None
+            if pkt is None or pkt.packet_type != packet.PONG or \
+                    pkt.data != 'probe':
                 self.logger.warning(
                     'WebSocket upgrade failed: no PONG packet')
                 return False
@@ -379,7 +383,11 @@ class Client(base_client.BaseClient):
             except Exception as e:  # pragma: no cover
                 raise exceptions.ConnectionError(
                     'Unexpected recv exception: ' + str(e))
-            open_packet = packet.Packet(encoded_packet=p)
+            try:
+                open_packet = packet.Packet(encoded_packet=p)
+            except ValueError:
+                raise exceptions.ConnectionError(
+                    'Unexpected response from server') from None
             if open_packet.packet_type != packet.OPEN:
                 raise exceptions.ConnectionError('no OPEN packet')
             self.logger.info(
